@@ -81,6 +81,8 @@ func init() {
 	}
 }
 
+var c20Mgr = variants.NewTypeUnsafeVariantOperations()
+
 func c20Host(h int) (any, Val) {
 	switch h {
 	case 0:
@@ -98,7 +100,7 @@ func c20Host(h int) (any, Val) {
 	case 6:
 		return float32(2.5), vFloat(2.5)
 	}
-	return time.Duration(1500), vSpan(1500)
+	return "xyz", vStr("xyz")
 }
 
 // expected Equals of two model values: 1 true, 0 false, -1 not determined by the statement
@@ -200,6 +202,25 @@ func c20Observe(c *mon.Case, s *c20State, trace []string) bool {
 		wl := 0
 		if want.T == "A" {
 			wl = len(want.E)
+		}
+		// text form and character access must follow the value the variant holds now
+		if want.T != "A" && want.T != "T" {
+			var text, wantText, first, wantFirst string
+			if p := mon.Try(func() {
+				text, wantText = s.real[i].String(), want.Variant().String()
+				if want.T == "S" && want.V != "" {
+					r1, e1 := c20Mgr.GetElement(s.real[i], variants.VariantFromInteger(0))
+					r2, e2 := c20Mgr.GetElement(want.Variant(), variants.VariantFromInteger(0))
+					first, wantFirst = fmt.Sprint(snap(r1), e1), fmt.Sprint(snap(r2), e2)
+				}
+			}); p != nil {
+				c.FailPanic("String()/GetElement", p)
+				return false
+			}
+			if text != wantText || first != wantFirst {
+				c.Failf("text form or character access does not follow the value the variant holds", "after [%s]: v%d=%s String()=%q (a fresh variant gives %q) [0]=%s (fresh: %s)", strings.Join(trace, "; "), i, want, text, wantText, first, wantFirst)
+				return false
+			}
 		}
 		if isNull != (want.T == "N") || isEmpty != (want.T == "N") || length != wl {
 			c.Failf("IsNull/IsEmpty/Length disagree with the held value", "after [%s]: v%d=%s IsNull=%v IsEmpty=%v Length=%d", strings.Join(trace, "; "), i, want, isNull, isEmpty, length)
@@ -447,7 +468,7 @@ func buildC20(cfg *mon.Config) []*mon.Sub {
 			// restrict the exhaustive scope to variants v0,v1 and list L1 to keep it finite: ops touching v2/L0 appear in the random sub-check
 			var idx []byte
 			for k, op := range c20Ops {
-				if op.i == 2 || op.j == 2 || ((op.code == 'a' || op.code == 'A' || op.code == 'O' || op.code == 'm' || op.code == 'p') && op.arg == 0 && op.code != 'O') || (op.code == 'O' && op.arg == 1) || (op.code == 'n' && op.arg > 3) {
+				if op.i == 2 || op.j == 2 || ((op.code == 'a' || op.code == 'A' || op.code == 'O' || op.code == 'm' || op.code == 'p') && op.arg == 0 && op.code != 'O') || (op.code == 'O' && op.arg == 1) || (op.code == 'n' && op.arg > 3 && op.arg != 7) {
 					continue
 				}
 				idx = append(idx, byte(k))
